@@ -320,7 +320,22 @@ def run_source(source, rep, record=True):
             witnesses = [("greedy-pruned", prune_plan(spec, plan))]
             if record:
                 rep.count("greedy-witness")
+        # the same episodes through the parameterised action space (vectors): the reward of an episode does not
+        # depend on how its actions are spelled
+        hp = None
         for kind, seq in witnesses:
+            if hp is None and any(a.kind in ("exploit", "privesc") for a in seq):
+                try:
+                    hp = walk.Harness(spec, h.scn, {"flat_actions": False})
+                except Exception:
+                    hp = False
+            if hp:
+                ptotal, pgoal, _ = replay(hp, seq)
+                if record:
+                    rep.count("witness-replayed-parameterised")
+                if pgoal and ptotal > bound + 1e-6:
+                    raise Failure("C20:bound-parameterised", f"goal-reaching episode through the parameterised action space earns {ptotal} > "
+                                  f"advertised upper bound {bound} (hops {hops}); episode {[repr(a) for a in seq]}")
             total, goal, ncomp = replay(h, seq)
             if not goal:
                 if record:
